@@ -252,8 +252,13 @@ class tzlocal(_tzinfo):
         .. versionadded:: 2.6.0
         """
         naive_dst = self._naive_is_dst(dt)
+        try:
+            earlier = dt - self._dst_saved
+        except OverflowError:
+            # Within the first hour(s) of datetime.min nothing can repeat
+            return False
         return (not naive_dst and
-                (naive_dst != self._naive_is_dst(dt - self._dst_saved)))
+                (naive_dst != self._naive_is_dst(earlier)))
 
     def _naive_is_dst(self, dt):
         timestamp = _datetime_to_timestamp(dt)
